@@ -624,6 +624,8 @@ pub fn run(cx: &mut Cx, which: Which) {
         let n = 65 + cx.ch.choose("wide_n", (WIDE - 65) as u64 + 1) as usize;
         let mut hidden_w = vec![cx.ch.choose("wide_hidden_low", 64) as usize, 64 + cx.ch.choose("wide_hidden_high", (n - 64) as u64) as usize];
         if cx.ch.chance("wide_last_hidden", 1, 2) && !hidden_w.contains(&(n - 1)) { hidden_w.push(n - 1); }
+        // every second wide credential hides MANY attributes (18..=24: more than a batch of 16)
+        if cx.run_index % 16 == 3 { let many = 18 + cx.ch.choose("wide_many_hidden", 7) as usize; let mut k = 1usize; while hidden_w.len() < many && k < n { if !hidden_w.contains(&k) { hidden_w.push(k); } k += 3; } cx.count("probe.presentation_hiding_more_than_sixteen_attributes"); }
         hidden_w.sort();
         let msgs_w: Vec<Integer> = (0..n).map(|i| gen_attr(seed, 3000 + i as u64, 0).value).collect();
         cx.count("probe.wide_credential_presented");
